@@ -171,7 +171,7 @@ func (g *generator) walkObject(schema *openapi3.Schema) (ast.Type, error) {
 	})
 
 	def := ast.NewStruct(fields...)
-	def.Default = schema.Default
+	def.Default = typedValue(schema, schema.Default)
 	def.Nullable = schema.Nullable
 
 	return def, nil
@@ -183,7 +183,7 @@ func (g *generator) walkArray(schema *openapi3.Schema) (ast.Type, error) {
 		return ast.Type{}, err
 	}
 
-	t := ast.NewArray(def, ast.Default(schema.Default))
+	t := ast.NewArray(def, ast.Default(typedValue(schema, schema.Default)))
 	t.Nullable = schema.Nullable
 
 	return t, nil
@@ -208,7 +208,7 @@ func (g *generator) walkString(schema *openapi3.Schema) (ast.Type, error) {
 
 	t.Scalar.Constraints = getConstraints(schema)
 	t.Nullable = schema.Nullable
-	t.Default = schema.Default
+	t.Default = typedValue(schema, schema.Default)
 	return t, nil
 }
 
@@ -225,7 +225,7 @@ func (g *generator) walkNumber(schema *openapi3.Schema) (ast.Type, error) {
 	}
 	t.Scalar.Constraints = getConstraints(schema)
 	t.Nullable = schema.Nullable
-	t.Default = schema.Default
+	t.Default = typedValue(schema, schema.Default)
 	return t, nil
 }
 
@@ -242,7 +242,7 @@ func (g *generator) walkInteger(schema *openapi3.Schema) (ast.Type, error) {
 
 	t.Scalar.Constraints = getConstraints(schema)
 	t.Nullable = schema.Nullable
-	t.Default = schema.Default
+	t.Default = typedValue(schema, schema.Default)
 	return t, nil
 }
 
@@ -306,11 +306,11 @@ func (g *generator) walkEnum(schema *openapi3.Schema) (ast.Type, error) {
 		enums = append(enums, ast.EnumValue{
 			Type:  enumType,
 			Name:  fmt.Sprintf(format, value),
-			Value: value,
+			Value: typedValue(schema, value),
 		})
 	}
 
-	return ast.NewEnum(enums, ast.Default(schema.Default)), nil
+	return ast.NewEnum(enums, ast.Default(typedValue(schema, schema.Default))), nil
 }
 
 func (g *generator) walkDisjunctions(schemaRefs []*openapi3.SchemaRef, discriminator string, mapping map[string]string) (ast.Type, error) {
